@@ -156,9 +156,13 @@ def exec_module(case):
         w2 = target[0].weight
         if not isinstance(w2, QTensor):
             return out.fail(f"module/load/{tagk}/not-quantized", f"{type(w2).__name__}")
+        n0 = len(out.failures)
         O.check_invariant(out, f"module/load/{tagk}", w2)
-        if not qprog._teq(w2.dequantize(), ref):
-            out.fail(f"module/load/{tagk}/value", "deserialized weight dequantizes differently")
+        if len(out.failures) != n0:
+            return out  # (a tensor that is not even self-consistent: nothing further can be asked of it)
+        d2 = cut(w2.dequantize)
+        if isinstance(d2, Raised) or not qprog._teq(d2, ref):
+            out.fail(f"module/load/{tagk}/value", "deserialized weight dequantizes differently" if not isinstance(d2, Raised) else f"dequantize raises {d2.type}")
         model, w = target, w2
     post = case["post"]
     if post == "deepcopy":
